@@ -524,6 +524,8 @@ class ExprMixin:
             if o.ty.kind == 'opt': return opt_is_none(o)
             if o.ty.kind == 'any': return o.z == self.to_any(SV(NONE, NONEV)).z
             return z3.BoolVal(False)
+        if 'any' in (lk, rk) and lk != rk:
+            return self.to_any(l).z == self.to_any(r).z       # dynamic view on one side: compare as dynamic values (None included)
         if lk == 'opt' or rk == 'opt':
             if lk == 'opt' and rk == 'opt':
                 if sort_of(l.ty) == sort_of(r.ty) and (identity or not l.ty.args[0].is_ref or l.ty.args[0].kind == 'obj'):
